@@ -145,8 +145,28 @@ impl<T> Out<T> {
     }
 }
 
+thread_local! {
+    /// source location of the last panic on this thread (set by the hook, read by `call*`)
+    pub static LAST_PANIC_AT: std::cell::RefCell<String> = std::cell::RefCell::new(String::new());
+}
+
 pub fn install_quiet_panic_hook() {
-    std::panic::set_hook(Box::new(|_| {}));
+    let loud = std::env::var("VERIF_LOUD").is_ok();
+    std::panic::set_hook(Box::new(move |info| {
+        let at = info.location().map(|l| format!("{}:{}", l.file(), l.line())).unwrap_or_default();
+        if loud {
+            eprintln!("panic at {}: {:?}", at, info.payload().downcast_ref::<&str>().map(|s| s.to_string()).or_else(|| info.payload().downcast_ref::<String>().cloned()));
+        }
+        LAST_PANIC_AT.with(|l| *l.borrow_mut() = at);
+    }));
+}
+
+/// file (without line) of the last panic, relative to the crate it is in
+pub fn last_panic_site() -> (String, String) {
+    let at = LAST_PANIC_AT.with(|l| l.borrow().clone());
+    let file = at.rsplit_once(':').map(|x| x.0.to_string()).unwrap_or_default();
+    let short = file.trim_start_matches("/repo/").to_string();
+    (short, at)
 }
 
 fn panic_msg(e: Box<dyn std::any::Any + Send>) -> String {
